@@ -284,6 +284,9 @@ func c30Steps(t *testing.T, b *world.Backend, snap *world.Snap, cc *c30Case) []s
 }
 
 func c30One(t *testing.T, c *vcore.Ctx, b *world.Backend, snap *world.Snap, pre *world.View, cc *c30Case) []string {
+	// a panic in a goroutine of the repository's own ends the worker: the driver reports it for this case
+	c.Journal("C30/process-crashed-during-run-and-wait", cc)
+	defer c.JournalDone()
 	r := c30Exec(t, b, snap, cc)
 	tr := r.tr
 	c.Eval()
